@@ -133,6 +133,13 @@ def run(ctx):
     from checks import bcalccheck
     bcalccheck.repo_suite(ctx, {'Mul', 'Div', 'Pow'})
     bcalccheck.dep_canonical(ctx, bcalccheck.DEP['C02'])
+    # the predefined catalogue: ordered unit pairs x {*, /} x operand kinds, powers -3..3 of every unit
+    # (quick: 1500 sampled pairs x 2 kinds, thorough: all 113^2 pairs x 4 kinds) - Catalogue.tla, Scale vectors
+    from checks import c20
+    quick = ctx.tier == 'quick'
+    kinds = [('q', 'q'), ('u', 'u')] if quick else [('q', 'q'), ('q', 'u'), ('u', 'q'), ('u', 'u')]
+    cs = c20.binop_cases(c20.table(), quick, random.Random(ctx.seed), kinds)
+    c20.judge(ctx, cs, 'catalogue-products', docs=False)
 
 
 def replay(ctx, rp):
